@@ -194,7 +194,7 @@ class Scope(object):
         self.parent.annotations.update(self.annotations)
       else:
         # TODO(mdan): This is not accurate.
-        self.parent.read.update(self.read - self.bound)
+        self.parent.read.update(self.read - (self.bound - self.nonlocals))
         self.parent.annotations.update(self.annotations - self.bound)
     self.is_final = True
 
